@@ -56,6 +56,12 @@ fn run_block(ctx: &Ctx, K: usize, T: usize, seed: u64, exhaustive_small: bool, s
         };
         windows.push((s, n));
     }
+    // a window longer than 2^16 packets (small blocks only): compared with single requests at sampled
+    // positions on both sides of 2^16 and at its ends
+    let long_window = K <= 11 && T <= 33;
+    if long_window {
+        windows.push((rng.below(1000) as u32, 66_000 + rng.below(6000) as u32));
+    }
     // overlapping pairs
     for _ in 0..40 {
         let s = rng.log_range(1, (max_start - 700) as u64) as u32;
@@ -195,7 +201,7 @@ pub fn run(ctx: &Ctx) -> i32 {
         return ctx.finish("replay of one recorded block", &[], vec![]);
     }
     let ks = [1usize, 3, 10, 11, 101, 257, 1000];
-    let ts = [1usize, 8, 33];
+    let ts = [1usize, 8, 33, 1400, 4100];
     let mut cases = vec![];
     for &K in &ks {
         for &T in &ts {
@@ -228,7 +234,7 @@ pub fn run(ctx: &Ctx) -> i32 {
     ctx.cov("objects_whose_packet_list_order_was_checked", J::i(st[3].load(Relaxed)));
     ctx.floor("window_elements_compared_with_single_requests", st[1].load(Relaxed), 10_000);
     ctx.finish(
-        "per block (K in {1,3,10,11,101,257,1000} x T in {1,8,33}; thorough adds more K up to 56403): encoders from new(), from a generated plan and from a second/cloned plan must be equal; for every window (s,n) (exhaustive s 0..=50 x n 0..=20 for K in {3,10}; random n<=300 with s log-uniform up to 2^24-K-n, including windows ending exactly at ESI 2^24-1; overlapping pairs) element i must carry (SBN, ESI=K+s+i) and equal the single-packet request for that ESI (so overlapping windows agree); per object (multi-block incl. KL != KS; data random, constant or periodic so that consecutive blocks can be byte-identical): get_encoded_packets(r) = block by block, source 0..K-1 then repair K..K+r-1, all ids distinct, equal to the block encoders' own packets. What happens beyond ESI 2^24-1 is outside the property and never requested. non-trivial = window with n>=2; distinct by (K,s,n)",
+        "per block (K in {1,3,10,11,101,257,1000} x T in {1,8,33,1400,4100}; thorough adds more K up to 56403): encoders from new(), from a generated plan and from a second/cloned plan must be equal; for every window (s,n) (exhaustive s 0..=50 x n 0..=20 for K in {3,10}; random n<=300 with s log-uniform up to 2^24-K-n, one window of 66 000-72 000 packets for K <= 11, including windows ending exactly at ESI 2^24-1; overlapping pairs) element i must carry (SBN, ESI=K+s+i) and equal the single-packet request for that ESI (so overlapping windows agree); per object (multi-block incl. KL != KS; data random, constant or periodic so that consecutive blocks can be byte-identical): get_encoded_packets(r) = block by block, source 0..K-1 then repair K..K+r-1, all ids distinct, equal to the block encoders' own packets. What happens beyond ESI 2^24-1 is outside the property and never requested. non-trivial = window with n>=2; distinct by (K,s,n)",
         &["byte-correctness of each symbol is C04's business; here only addressing consistency"],
         vec![],
     )
